@@ -84,7 +84,7 @@ fn serve(stream: TcpStream, id: usize, p: Arc<Peer>) {
 }
 
 fn start(p: Arc<Peer>) -> Option<(u16, std::thread::JoinHandle<()>)> {
-    let l = TcpListener::bind("127.0.0.1:0").ok()?;
+    let l = TcpListener::bind((crate::util::lo(), 0)).ok()?;
     let port = l.local_addr().ok()?.port();
     let h = std::thread::spawn(move || {
         let mut id = 0;
@@ -127,7 +127,7 @@ fn slowquit(client: &str) -> Option<Vec<String>> {
     let (port, _srv) = start(p.clone())?;
     let out = match client {
         "s" => {
-            let t = SmtpTransport::builder_dangerous("127.0.0.1").port(port).timeout(Some(Duration::from_secs(8))).build();
+            let t = SmtpTransport::builder_dangerous(crate::util::lo()).port(port).timeout(Some(Duration::from_secs(8))).build();
             let t2 = t.clone();
             let sender = std::thread::spawn(move || describe_pub(&t2.send_raw(&env(), b"one\r\n")));
             if !wait_until(|| p.at_gate.load(Ordering::SeqCst) == 1, 5000) {
@@ -155,7 +155,7 @@ fn slowquit(client: &str) -> Option<Vec<String>> {
             let v = rt.block_on(async move {
                 let p = p2;
                 let t: AsyncSmtpTransport<Tokio1Executor> =
-                    AsyncSmtpTransport::<Tokio1Executor>::builder_dangerous("127.0.0.1").port(port).timeout(Some(Duration::from_secs(8))).build();
+                    AsyncSmtpTransport::<Tokio1Executor>::builder_dangerous(crate::util::lo()).port(port).timeout(Some(Duration::from_secs(8))).build();
                 let t2 = t.clone();
                 let sender = tokio::spawn(async move { describe_pub(&t2.send_raw(&env(), b"one\r\n").await) });
                 let t0 = Instant::now();
@@ -194,7 +194,7 @@ fn slowquit(client: &str) -> Option<Vec<String>> {
         _ => return None,
     };
     p.stop.store(true, Ordering::SeqCst);
-    let _ = TcpStream::connect(("127.0.0.1", port));
+    let _ = TcpStream::connect((crate::util::lo(), port));
     Some(vec![out.join(" ")])
 }
 
@@ -205,7 +205,7 @@ fn atreturn(client: &str, k: usize) -> Option<Vec<String>> {
     let cfg = || PoolConfig::new().max_size(8).idle_timeout(Duration::from_secs(60));
     let out = match client {
         "s" => {
-            let t = SmtpTransport::builder_dangerous("127.0.0.1").port(port).timeout(Some(Duration::from_secs(5))).pool_config(cfg()).build();
+            let t = SmtpTransport::builder_dangerous(crate::util::lo()).port(port).timeout(Some(Duration::from_secs(5))).pool_config(cfg()).build();
             let hs: Vec<_> = (0..k)
                 .map(|_| {
                     let t2 = t.clone();
@@ -231,7 +231,7 @@ fn atreturn(client: &str, k: usize) -> Option<Vec<String>> {
             let p2 = p.clone();
             let v = rt.block_on(async move {
                 let p = p2;
-                let t: AsyncSmtpTransport<Tokio1Executor> = AsyncSmtpTransport::<Tokio1Executor>::builder_dangerous("127.0.0.1")
+                let t: AsyncSmtpTransport<Tokio1Executor> = AsyncSmtpTransport::<Tokio1Executor>::builder_dangerous(crate::util::lo())
                     .port(port)
                     .timeout(Some(Duration::from_secs(5)))
                     .pool_config(cfg())
@@ -265,7 +265,7 @@ fn atreturn(client: &str, k: usize) -> Option<Vec<String>> {
         _ => return None,
     };
     p.stop.store(true, Ordering::SeqCst);
-    let _ = TcpStream::connect(("127.0.0.1", port));
+    let _ = TcpStream::connect((crate::util::lo(), port));
     Some(vec![out.join(" ")])
 }
 
